@@ -1,0 +1,14 @@
+//go:build verif
+
+// Contracts for the core ledger types, read by /verif/govc.
+// This file contains comments only; it is compiled only with -tags verif.
+
+package ledger
+
+// frame contracts: building a script from a request only creates fresh objects
+//@ func ledger.TxToScriptData
+//@   modifies map[string]string, map[string]ledger.variable
+//@ func (ledger.ScriptV1).ToCore
+//@   modifies map[string]string
+//@ func (*ledger.TransactionRequest).ToRunScript
+//@   modifies map[string]string, map[string]ledger.variable
